@@ -1266,6 +1266,10 @@ func SelectExpr(query *Query, current Map, expr *sqlparser.SelectExprs, opts ...
 				if fuse, ok := valueRaw.(Fuse); ok {
 					prefix := expr.As.String()
 					for key, value := range fuse {
+						// the navigation marker of a fused subquery row is not data
+						if key == "<-" {
+							continue
+						}
 						if len(prefix) > 0 {
 							data[fmt.Sprintf("%s.%s", prefix, key)] = value
 							continue
